@@ -303,3 +303,12 @@ func init() {
 	mutant("one-octet-payload-unread", "frame-io-bounds", "frameHeader.go", "	if f.length > 0 {\n		n := f.length", "	if f.length > 1 {\n		n := f.length")
 	mutant("reader-count-wrong", "frame-io-bounds", "frameHeader.go", "		rn += int64(n)", "		rn -= int64(n)")
 }
+
+func init() {
+	mutant("stream-limit-not-configured", "config-reaches-enforcement", "server.go", "	sc.st.SetMaxConcurrentStreams(uint32(s.cnf.MaxConcurrentStreams))\n", "")
+	mutant("header-limit-not-configured", "config-reaches-enforcement", "server.go", "		maxHeaderList:  s.cnf.MaxHeaderListSize,", "		maxHeaderList:  DefaultMaxHeaderListSize,")
+	mutant("window-accounting-detached", "config-reaches-enforcement", "server.go", "	sc.currentWindow = sc.maxWindow\n", "	sc.currentWindow = 1 << 16\n")
+	mutant("body-limit-ignored", "config-reaches-enforcement", "server.go", "	if s.MaxRequestBodySize > 0 {\n		return s.MaxRequestBodySize\n	}\n", "")
+	mutant("stream-limit-default-zero", "config-reaches-enforcement", "server.go", "	if sc.MaxConcurrentStreams <= 0 {", "	if sc.MaxConcurrentStreams < 0 {")
+	mutant("send-window-starts-wrong", "config-reaches-enforcement", "serverConn.go", "	sc.clientWindow = int64(defaultWindowSize)", "	sc.clientWindow = int64(defaultDataFrameSize)")
+}
